@@ -295,6 +295,8 @@ class Tree:
                 elif any(e[0] == target for e in path) or target == self.top:
                     out.append(('cycle', stack, target, [], edge))
                 else:
+                    # (a marker: the sheet was reached, whatever it holds - an empty one leaves no other trace)
+                    out.append(('reached', stack, target, [], edge))
                     out.extend(self.expand(target, stack, edge))
             elif it[0] == 'style':
                 out.append(('style', media_stack, it[1], [urljoin(url, u) for u in it[2]], path))
@@ -447,7 +449,11 @@ def classify_url_diff(got, want):
 # ------------------------------------------------------------------------------------------------------------ part C
 def part_c(ctx, c, rng, i):
     """the same kind of tree as real files through csscombine"""
-    root = tempfile.mkdtemp(prefix='c19-', dir=os.environ.get('VERIF_TMP') or None)
+    # (hrefs like '../x.css' climb: the tree's root sits five levels inside a directory of its own, so that nothing is ever written to -
+    # or read from - a directory that another run shares)
+    base = tempfile.mkdtemp(prefix='c19-', dir=os.environ.get('VERIF_TMP') or None)
+    root = os.path.join(base, 'p0', 'p1', 'p2', 'p3', 'p4')
+    os.makedirs(root)
     try:
         top_path = os.path.join(root, 'd0', 'd1', 'top.css')
         top_url = c.helper.path2url(top_path)
@@ -470,7 +476,7 @@ def part_c(ctx, c, rng, i):
                 f.write(tree.text(url))
         minify = rng.random() < 0.5
         target_enc = rng.choice([None, 'utf-8', 'ascii', 'iso-8859-1'])
-        case = {'kind': 'files', 'files': {u.replace(root, '<root>'): tree.text(u) for u in tree.files}, 'missing': sorted(m.replace(root, '<root>') for m in tree.missing), 'minify': minify,
+        case = {'kind': 'files', 'files': {u.replace(root, '<root>').replace(base, '<base>'): tree.text(u) for u in tree.files}, 'missing': sorted(m.replace(root, '<root>').replace(base, '<base>') for m in tree.missing), 'minify': minify,
                 'targetencoding': target_enc}  # fmt: skip
         core.canonical_state(c, raising=False)
         s = core.Sentinels(c)
@@ -506,9 +512,9 @@ def part_c(ctx, c, rng, i):
                     for a, b in zip(g[3], w[3]):
                         if a != b:
                             vf.add(classify_url_diff(a, b))
-            ctx.violation('combine', case, {'got': str(got).replace(root, '<root>')[:500], 'want': str(want).replace(root, '<root>')[:500], 'out': out.decode('utf-8', 'replace')[:400]}, features=sorted(vf))
+            ctx.violation('combine', case, {'got': str(got).replace(root, '<root>').replace(base, '<base>')[:500], 'want': str(want).replace(root, '<root>').replace(base, '<base>')[:500], 'out': out.decode('utf-8', 'replace')[:400]}, features=sorted(vf))
     finally:
-        shutil.rmtree(root, ignore_errors=True)
+        shutil.rmtree(base, ignore_errors=True)
 
 
 def run_worker(ctx):
